@@ -699,3 +699,134 @@ def loop_fresh(ctx):
     taken for the current one."""
     from .common_loopfresh import loop_fresh as run
     run(ctx, sorted(mn for mn in ctx.repo.modules if mn.startswith('services.')), 'the answer of an earlier provider / item is served for the current one')
+
+
+def _lenient_reply(tree, q):
+    a = mut.replace_expr('services.authproxy', q, "'result' not in response", 'False').mutate(tree)
+    b = mut.replace_expr('services.authproxy', q, "response['result']", "response.get('result')").mutate(tree)
+    return bool(a and b)
+
+
+@PROP.obligation('C20.rpc-reply', canaries=[
+    mut.Canary('single call: missing result member read as null', 'services.authproxy', lambda tree: _lenient_reply(tree, 'AuthServiceProxy.__call__')),
+    mut.Canary('batch call: missing result member read as null', 'services.authproxy', lambda tree: _lenient_reply(tree, 'AuthServiceProxy.batch_')),
+])
+def rpc_reply(ctx):
+    """The JSON-RPC transport of the node clients (bitcoind, litecoind, dogecoind) evaluated on concrete replies: a reply with a
+    result member and no error returns exactly that member (null included), a reply with an error object raises, and a JSON object
+    that is NOT a JSON-RPC reply (no result member: a gateway's {"message": ...}, {"error": null, "id": n}) raises as well - it is a
+    failed provider, not an answer of None that the service layer hands on as the node's word."""
+    AP = 'services.authproxy'
+    good = {'result': {'txid': 'aa'}, 'error': None, 'id': 1}
+    null = {'result': None, 'error': None, 'id': 1}
+    err = {'result': None, 'error': {'code': -5, 'message': 'No such transaction'}, 'id': 1}
+    junk = {'message': 'upstream unavailable'}
+    noresult = {'error': None, 'id': 1}
+
+    def run(q, reply, args):
+        fn = ctx.repo.func(q)
+
+        def hook(it, base, a, kw, st, node):
+            import copy
+            return copy.deepcopy(reply)
+        it = Interp(ctx.repo, AP, hooks={'._get_response': hook}, self_cls=AP + ':AuthServiceProxy')
+        try:
+            exits = it.run_function(fn, dict(args, self=S(SELF)))
+        except AnalysisError as e:
+            ctx.undecided('%s on the reply %s not evaluable: %s' % (q, reply, str(e)[:100]))
+        if any(e.pc for e in exits) or not exits:
+            ctx.undecided('%s on the reply %s: outcome depends on %s' % (q, reply, [show(t)[:50] for e in exits for t, _ in e.pc][:3]))
+        return fn, exits
+    n = 0
+    q = AP + ':AuthServiceProxy.__call__'
+    for reply, want in ((good, ('return', good['result'])), (null, ('return', None)), (err, ('raise', None)), (junk, ('raise', None)), (noresult, ('raise', None))):
+        fn, exits = run(q, reply, {'args': S(('var', 'args'))})
+        kinds = sorted(set(e.kind for e in exits))
+        n += 1
+        ctx.saw('__call__ on %s -> %s' % (reply, [(e.kind, show(term(e.value))[:40]) for e in exits]))
+        if want[0] == 'raise':
+            ctx.require(kinds == ['raise'], q, 'the reply %s makes the call return %s instead of raising' % (reply, [show(term(e.value))[:40] for e in exits if e.kind == 'return']), fn,
+                        'a malformed answer of a node provider is handed on as the answer None: the next provider is never asked')
+        else:
+            rets = [term(e.value) for e in exits if e.kind == 'return']
+            wantv = term(want[1])
+            ctx.require(kinds == ['return'] and rets == [wantv], q, 'the reply %s gives %s, expected its result member' % (reply, [(e.kind, show(term(e.value))[:40]) for e in exits]), fn)
+    q = AP + ':AuthServiceProxy.batch_'
+    for replies, want in (([good, null], 'return'), ([good, junk], 'raise'), ([noresult, good], 'raise'), ([good, err], 'raise')):
+        fn, exits = run(q, replies, {'rpc_calls': []})
+        kinds = sorted(set(e.kind for e in exits))
+        n += 1
+        ctx.saw('batch_ on %d replies (%s) -> %s' % (len(replies), want, kinds))
+        if want == 'raise':
+            ctx.require(kinds == ['raise'], q, 'the batch reply %s returns %s instead of raising' % (replies, [show(term(e.value))[:60] for e in exits if e.kind == 'return']), fn,
+                        'a malformed answer inside a batch is handed on as the answer None')
+        else:
+            rets = [term(e.value) for e in exits if e.kind == 'return']
+            ctx.require(kinds == ['return'] and rets == [term([r['result'] for r in replies])], q, 'the batch reply %s gives %s, expected the list of result members' % (replies, [show(r)[:60] for r in rets]), fn)
+    ctx.floor(n, 9, 'reply scenarios')
+
+
+@PROP.obligation('C20.summary-complete', canaries=[
+    mut.replace_expr(SVC, 'Service.getutxos', "self._provider_execute('getutxos', address, after_txid, limit)", "self._provider_execute('getutxos', address, after_txid if not utxos_cache else utxos_cache[-1]['txid'], limit)", 'provider asked for the tail while the guard still tests the full-set marker'),
+])
+def summary_complete(ctx):
+    """Service.getutxos caches an address summary (balance, number of unspent outputs) computed from the PROVIDER's answer alone. That is
+    the summary of the address only when the provider was asked for the complete set, i.e. when the marker handed to
+    _provider_execute('getutxos', address, <marker>, limit) was empty. The guard of the store tests exactly that expression, with the
+    same reaching definitions - not the caller's argument while the provider was asked for the tail after the cached outputs."""
+    q = SVC + ':Service.getutxos'
+    f = ctx.repo.func(q)
+    rd = ReachingDefs(f)
+    g = rd.cfg
+    calls = [c for c in ast.walk(f) if isinstance(c, ast.Call) and norm(c.func) == 'self._provider_execute' and c.args and isinstance(c.args[0], ast.Constant) and c.args[0].value == 'getutxos']
+    if len(calls) != 1 or len(calls[0].args) < 3:
+        ctx.undecided('Service.getutxos: %d provider calls for getutxos with a position marker, expected 1' % len(calls))
+    marker = calls[0].args[2]
+    call_id = rd.node_of_ast(calls[0])
+    answer = None
+    for n in ast.walk(f):
+        if isinstance(n, ast.Assign) and n.value is calls[0] and isinstance(n.targets[0], ast.Name):
+            answer = n.targets[0].id
+    if answer is None:
+        ctx.undecided('Service.getutxos: the provider answer is not bound to a name')
+    stores = [c for c in ast.walk(f) if isinstance(c, ast.Call) and norm(c.func) == 'self.cache.store_address']
+    ctx.floor(len(stores), 1, 'store_address calls in getutxos')
+    for c in stores:
+        nid = rd.node_of_ast(c)
+        summ = [k for k in c.keywords if k.arg in ('balance', 'n_utxos')]
+        if not summ:
+            continue
+        # the summary covers the complete list only if it is computed from cache part + provider part
+        names = set()
+        todo = [x.id for k in summ for x in ast.walk(k.value) if isinstance(x, ast.Name)]
+        while todo:
+            nm = todo.pop()
+            if nm in names:
+                continue
+            names.add(nm)
+            if nm == answer:
+                continue
+            for d in rd.reaching(nid, nm):
+                if d.value is not None:
+                    todo += [x.id for x in ast.walk(d.value if d.kind != 'aug' else d.value.value) if isinstance(x, ast.Name)]
+        ctx.saw('store_address(%s) is computed from %s; the provider was asked with marker `%s`' % (', '.join('%s=%s' % (k.arg, norm(k.value)) for k in summ), sorted(names & {answer, 'utxos_cache'}), norm(marker)))
+        if answer not in names:
+            ctx.undecided('Service.getutxos: the cached summary does not derive from the provider answer `%s`' % answer)
+        if 'utxos_cache' in names:
+            continue
+        guards = guards_of(g, nid)
+        ok = False
+        shown = []
+        for tid, pol in guards:
+            t = g.node(tid).ast if hasattr(g, 'node') else [n for n in g.nodes if n.id == tid][0].ast
+            test = getattr(t, 'test', t)
+            shown.append(('' if pol == 'T' else 'not ') + '(%s)' % norm(test)[:40])
+            e, want = test, pol
+            if isinstance(e, ast.UnaryOp) and isinstance(e.op, ast.Not):
+                e, want = e.operand, ('F' if pol == 'T' else 'T')
+            if want == 'F' and norm(e) == norm(marker):
+                # same definitions of every name of the marker at the call and at the guard
+                same = all(set(rd.reaching(call_id, x.id)) == set(rd.reaching(tid, x.id)) for x in ast.walk(marker) if isinstance(x, ast.Name))
+                ok = ok or same
+        ctx.require(ok, q, 'the summary of the provider answer alone is cached when %s, but the provider was asked with the marker `%s`: no guard requires that marker to be empty' % (' and '.join(shown) or 'always', norm(marker)), c,
+                    'after a partial cache hit the address is cached with the balance / output count of the tail only (0 / 0 when nothing is new): getcacheaddressinfo and later cache answers report it')
